@@ -48,6 +48,7 @@ class NativeBackend(BackendBase):
         self.observables = {}
         self.assume_failed = []
         self.reached = []
+        self.meta = {}
         self._reset_library_state()
         ns = self.define(COMMON_CLASSES_SRC)
 
@@ -284,13 +285,101 @@ class NativeBackend(BackendBase):
             return {"$exc": type(v).__name__}
         return {"$new": type(v).__name__}
 
+    # ---- reaching an installed pre-state through the public API (DESIGN 4.1)
+    def try_public_assoc(self, verts, links):
+        """The association lists of ``verts``/``links`` were installed privately
+        (inductive-step pre-state).  Try to reach exactly that state with public
+        API calls on the same objects, starting from their constructed state.
+        Sets meta['state_via'] to 'public' (with the history) or 'private'."""
+        target_v = {id(v): list(v.__dict__["_links"]) for v in verts}
+        target_l = {id(l): list(l.__dict__["_vertices"]) for l in links}
+        TwoEnded = self.cls("TwoEndedLink")
+        hist = []
+
+        def restore():
+            for v in verts:
+                v.__dict__["_links"] = list(target_v[id(v)])
+            for l in links:
+                l.__dict__["_vertices"] = list(target_l[id(l)])
+        try:
+            for v in verts:
+                v.__dict__["_links"] = []
+            events = []          # [link, position, vertex, kind, done]
+            for l in links:
+                tgt = target_l[id(l)]
+                two = isinstance(l, TwoEnded) and len(tgt) >= 2
+                if isinstance(l, TwoEnded):
+                    l.__dict__["_vertices"] = [None, None]
+                    if not two:
+                        l.unlink_from(None)
+                        l.unlink_from(None)
+                        hist.append(f"{self.label_of(l)}.unlink_from(None) x2")
+                else:
+                    l.__dict__["_vertices"] = []
+                for i, x in enumerate(tgt):
+                    events.append([l, i, x, "set" if (two and i < 2) else "add", False])
+            ptr = {id(v): 0 for v in verts}
+
+            def enabled(ev):
+                l, i, x, kind, done = ev
+                if done:
+                    return False
+                if kind == "add":
+                    for e2 in events:
+                        if e2[0] is l and e2[3] == "add" and e2[1] < i and not e2[4]:
+                            return False
+                if x is None:
+                    return True
+                if any(e is l for e in x.__dict__["_links"]):
+                    return True
+                tl = target_v[id(x)]
+                return ptr[id(x)] < len(tl) and tl[ptr[id(x)]] is l
+            progress = True
+            while progress:
+                progress = False
+                for ev in events:
+                    if enabled(ev):
+                        l, i, x, kind, _ = ev
+                        if kind == "set":
+                            if i == 0:
+                                l.v1 = x
+                            else:
+                                l.v2 = x
+                            hist.append(f"{self.label_of(l)}.v{i + 1} = {self.label_of(x)}")
+                        else:
+                            l.add_vertex(x)
+                            hist.append(f"{self.label_of(l)}.add_vertex({self.label_of(x)})")
+                        ev[4] = True
+                        if x is not None:
+                            tl = target_v[id(x)]
+                            while ptr[id(x)] < len(tl) and any(e is tl[ptr[id(x)]] for e in x.__dict__["_links"]):
+                                ptr[id(x)] += 1
+                        progress = True
+            ok = all(ev[4] for ev in events)
+            ok = ok and all(_same(v.__dict__["_links"], target_v[id(v)]) for v in verts)
+            ok = ok and all(_same(l.__dict__["_vertices"], target_l[id(l)]) for l in links)
+        except Exception:
+            ok = False
+        # the recipe may have touched caches / statistics only; lists are what matters
+        if ok:
+            self.meta["state_via"] = "public"
+            self.meta["history"] = hist
+        else:
+            restore()
+            self.meta["state_via"] = "private"
+
     def result(self):
         idmap = self.idmap()
         return {
+            "meta": self.meta,
             "obligations": self.obligations,
             "observables": {k: self.abstract(v, idmap) for k, v in self.observables.items()},
             "reached": self.reached,
         }
+
+
+def _same(a, b):
+    return len(a) == len(b) and all(x is y for x, y in zip(a, b))
 
 
 def _isobj(x):
